@@ -327,3 +327,33 @@ Proof.
   exists (Build_bh 12 2 0 5), (Build_bh 11 2 10 5). split; [reflexivity|]. split; [discriminate|].
   split; [vm_compute; reflexivity|]. split; vm_compute; reflexivity.
 Qed.
+
+(* ------------------------------------------------------------------ the header about to be signed vs the node's BFT store *)
+Lemma forged_header_no_contradiction : forall g s t h info,
+  Inv g s -> init_header (disk s) t g = Some (h, info) -> forall p, In p (published s) -> contradicting p h = false.
+Proof.
+  intros g s t h info [Hfol Hgen Hdisk] Hh p Hin.
+  destruct (forge_facts g (disk s) t h info (published s) Hh Hdisk Hgen) as (G1 & G2 & G3 & G4 & _).
+  destruct (G4 p Hin) as [Hg Hlex]. pose proof (max_height_ge _ _ Hin) as Hmh. pose proof (G3 p Hin) as Hmg.
+  destruct (contradicting p h) eqn:Ec; [|reflexivity].
+  apply contradicting_iff in Ec. destruct Ec as (_ & Hn & _). exfalso. apply Hn. unfold legit_successor. lia.
+Qed.
+
+From LE Require BFT.Votes.
+(* IsHeaderContradictingChain (BFT.Votes.chain_contradicting: the newest window entry of the same generator decides) is
+   false for the header the generator is about to sign, provided the window entries carrying this generator's address are
+   headers it handed on (nobody else can sign for it) *)
+Lemma forged_not_chain_contradicting : forall g s t h info (vts : Votes.votes) (hd : Votes.hdr),
+  Inv g s -> init_header (disk s) t g = Some (h, info) -> Votes.bh_of_hdr hd = h ->
+  (forall bi, In bi (Votes.v_infos vts) -> Votes.i_gen bi = g -> In (Votes.bh_of_info bi) (published s)) ->
+  Votes.chain_contradicting vts hd = false.
+Proof.
+  intros g s t h info vts hd Hinv Hh Hb Hw. unfold Votes.chain_contradicting.
+  destruct (find (fun bi => Votes.i_gen bi =? Votes.h_gen hd) (Votes.v_infos vts)) as [bi|] eqn:Ef; [|reflexivity].
+  apply find_some in Ef. destruct Ef as [Hin Eg]. apply N.eqb_eq in Eg.
+  rewrite Hb. eapply forged_header_no_contradiction; [exact Hinv|exact Hh|].
+  apply Hw; [exact Hin|]. rewrite Eg. pose proof (init_header_gen _ _ _ _ _ Hh) as Hg. rewrite <- Hb in Hg. exact Hg.
+Qed.
+
+Lemma reachable_inv : forall g t0 evs, Inv g (run g init_header (init t0) evs).
+Proof. intros. apply run_inv. apply init_inv. Qed.
